@@ -38,6 +38,12 @@ pub struct VerifProbe {
     pub timers: [Option<std::time::Instant>; 9],
 }
 
+/// Build an RTT estimator for driving a [`crate::congestion::Controller`] outside a connection
+/// (its constructor is crate-private)
+pub fn verif_rtt_estimator(initial_rtt: std::time::Duration) -> super::RttEstimator {
+    super::RttEstimator::new(initial_rtt)
+}
+
 impl Connection {
     /// Observe internal loss-recovery accounting without changing anything
     pub fn verif_probe(&self) -> VerifProbe {
